@@ -3,3 +3,13 @@ import Gleece.Properties.C11
 #print axioms Gleece.Bounds.converters_agree_single
 #print axioms Gleece.Bounds.converters_agree
 #print axioms Gleece.Bounds.converters_differ_witness
+#print axioms Gleece.Conv.converters_agree
+#print axioms Gleece.Conv.converters_agree_tag
+#print axioms Gleece.Conv.step_sim
+#print axioms Gleece.Conv.two_bounds_one_side_differ
+#print axioms Gleece.Conv.unparsable_value_differs
+#print axioms Gleece.Conv.outside_guard
+#print axioms Gleece.Conv.parsers_are_modelled
+#print axioms Gleece.Conv.model_rules_in_table
+#print axioms Gleece.Conv.table_rules_in_model
+#print axioms Gleece.Conv.guards_are_modelled
